@@ -1289,7 +1289,7 @@ impl Gc {
         ptr.next = self.values.take();
         self.allocated_memory += ptr.size();
         #[cfg(feature = "verif")]
-        crate::verif::note_allocated(self.allocated_memory);
+        crate::verif::note_allocated(self.allocated_memory, self.memory_limit);
         unsafe {
             let p: *mut D::Value = D::Value::make_ptr(&def, ptr.value());
             let ret: *const D::Value = &*def.initialize(WriteOnly::new(p));
